@@ -12,6 +12,7 @@ PROPERTY = {'id': 'C09',
                'xdoctest.doctest_example:DocTest._color',
                'xdoctest.doctest_example:DocTest._print_captured',
                'xdoctest.doctest_example:DocTest.repr_failure',
+               'xdoctest.doctest_example:DocTest.repr_failure._alter_traceback_linenos',
                'xdoctest.doctest_example:DocTest.node',
                'xdoctest.doctest_example:DoctestConfig.getvalue',
                'xdoctest.directive:RuntimeState.__init__',
